@@ -3,7 +3,7 @@
 //! The two hashing schemes are re-implemented here directly on `blake3` from the
 //! specification text in `akd_core/src/lib.rs`; the trie hash is a from-scratch recursion
 //! over the sorted leaf list. Only the ECVRF core (prove + output truncation) is shared with akd.
-use akd::ecvrf::{HardCodedAkdVRF, VRFKeyStorage, VRFPrivateKey, VrfError};
+use akd::ecvrf::{VRFKeyStorage, VRFPrivateKey, VrfError};
 use akd::{Configuration, ExampleLabel, ExperimentalConfiguration, WhatsAppV1Configuration};
 use std::collections::{BTreeMap, HashMap};
 use std::convert::TryFrom;
@@ -194,6 +194,24 @@ pub fn model_root(c: Cfg, leaves: &BTreeMap<[u8; 32], (D, u64)>) -> D {
     root_hash(c, &model_tree(c, leaves).root_val)
 }
 
+/// RFC 9381 proof_to_hash for ECVRF-EDWARDS25519-SHA512-TAI, truncated to 32 bytes:
+/// SHA512(suite=0x03 || 0x03 || compress(8 * Gamma) || 0x00)[..32]. Independent of akd's `Output`.
+pub fn node_label_from_proof_bytes(proof: &[u8]) -> Option<[u8; 32]> {
+    use sha2::Digest;
+    if proof.len() != 80 {
+        return None;
+    }
+    let gamma = curve25519_dalek::edwards::CompressedEdwardsY::from_slice(&proof[..32]).ok()?.decompress()?;
+    let mut hs = sha2::Sha512::new();
+    hs.update([0x03u8, 0x03u8]);
+    hs.update(gamma.mul_by_cofactor().compress().as_bytes());
+    hs.update([0x00u8]);
+    let out = hs.finalize();
+    let mut r = [0u8; 32];
+    r.copy_from_slice(&out[..32]);
+    Some(r)
+}
+
 // ---------------------------------------------------------------------------------------
 // VRF key storage with an arbitrary key
 
@@ -281,7 +299,7 @@ impl Model {
         }
         let alpha = vrf_input(self.c, label, fresh, version);
         let proof = self.sk.prove(&alpha);
-        let nl = now_ready(HardCodedAkdVRF {}.get_node_label_from_vrf_proof(proof)).label_val;
+        let nl = node_label_from_proof_bytes(&proof.to_bytes()).expect("own proof decodes");
         self.memo.insert((label.to_vec(), fresh, version), nl);
         nl
     }
